@@ -349,6 +349,13 @@ func (hr *handRun) withhold(c *HCase, calls []HCall, event string) {
 		hr.attempt(c, call, true)
 	}
 	w := calls[0]
+	// the one who owes the answer sends a signal of the other kind instead (a stray "ready" at a payment request, a stray
+	// payment at the readiness request): it is not what was asked, the hand must go on waiting
+	stray := HCall{Player: w.Player, Action: "ready", Why: "wrong_kind"}
+	if w.Action == "ready" {
+		stray = HCall{Player: w.Player, Action: "pay", Chips: 10, Why: "wrong_kind"}
+	}
+	hr.attempt(c, stray, true)
 	w.Why = "withheld"
 	s := HStep{Call: w, Pre: hr.snap()}
 	d.takeEvents()
